@@ -299,12 +299,12 @@ PROPS["C05"] = dict(
 # ---- additions made after the second round of seeded changes (what each generator / oracle now also covers)
 EXTRA_RULE = {
  "C01": "file names use every letter (case folding of the whole alphabet); collision groups on the last hash slot (probe chains that wrap). V3/V4: the extended tables resolve every added name and confirm its name hash; members of 128 KiB..3 MB so that extended block-table entries of every width (below, at and past 64 bits) are built, each compared with the classic block entry and with Model.C01Bet byte for byte; the reader on 400/4000 arbitrary tables (any column widths 0..64, any bytes); 136 reads of an 8 MiB member in one process; one archive in three carries names whose extended-table byte is 0xFF or 0x80 (two of them colliding); the builder's hash-entry table and the candidates / confirmed index of 14 lookups per archive against Model.C01Het. sectored files that are almost incompressible (random sectors, one ending in 4..128 zeros) under every method; sparse literal runs of exactly 127..130 / 255..258 / 385 bytes between zero runs.",
- "C02": "two reference-written archives in three carry deleted markers (independent writer that added and removed files: Model writeArchiveTomb), names containing every letter incl. z.",
+ "C02": "two reference-written archives in three carry deleted markers (independent writer that added and removed files: Model writeArchiveTomb), names containing every letter incl. z. the reference reader is strict about what a lenient reader forgives: the V2 header's table of high position words is absent or inside the archive, every live block's stored extent (model op mpqblocks) lies inside the archive.",
  "C03": "the in-tree sparse compressor byte for byte on every {0,x} string up to length 10/12 and run-structured inputs; ADPCM mono/stereo combined with every second-stage method on sine, square-wave and click signals; 560 decodes of a 2 MiB block in one process (no budget shared between calls). stereo ADPCM with one steady channel (left / right); the ADPCM encoder on 90/600 generated signals (drift, jumps, sine, full-scale alternation, noise; refused lengths included) and the decoder on its streams, on mutated streams (markers inserted, bits flipped, truncated, other bit shifts) and other declared sizes, byte for byte against Model.C03Adpcm. 2^20+1 and 2^21 bytes in every tier.",
  "C05": "(attributes) special files parsed directly (7 flag sets x 3 block counts x 10 requested block counts); the last 1..8 bytes cut off every seed; every pair of hostile values over the first 8 dwords for DBC/patch/skin/attributes seeds. seeds for water tiles (MH2O header rows, instances, bitmaps, vertex data mutated field by field), chunked models (MD21 + every auxiliary chunk), modern and legacy .anim files, WDB2 (basic / extended) and WDB5 containers. a chunk moved to the end of the file or right behind the first chunk (also the last three chunks).",
  "C06": "adds whose data preparation fails after the early checks passed (unsupported selector combination, ADPCM on odd lengths), as new names and as replaces.",
  "C07": "reported counts against the harness' own bookkeeping (listed entries, entries the options exclude); fixed witness of D2 through rebuild.",
- "C09": "requests of 5001/5003/5007 names (own splitting path) in the quick tier; the archive at the same path replaced and extracted again in the same process through every parallel entry point.",
+ "C09": "requests of 5001/5003/5007 names (own splitting path) in the quick tier; the archive at the same path replaced and extracted again in the same process through every parallel entry point. archive members in every storage form (default, encrypted + compressed, encrypted with the position-adjusted key and stored as is, stored plain, bzip2); extract_matching_parallel over all sub-directory predicates and all files.",
  "C10": "every protected archive also verified behind a 512- and a 1536-byte prefix; an empty and a one-byte file in every protected archive; an archive with full attributes after an in-place add (MutableArchive): untouched and added files verify, altered bytes of untouched files are detected. files mixing stored-as-is and compressed sectors under sector checksums; 700/3000 signed contents (short RSA values occur). an existing file REPLACED in place (V1, V2, V4) in an archive with full attributes: the replaced file verifies too.",
  "C11": "traversal names that share a leaf name with an ordinary entry (flattened extraction meets the same base name again); directories followed by more '..' than directories.",
  "C13": "textures with and without file names, events with per-animation ranges, cameras with any subset of position/target/roll tracks; the relocation correspondence also for the event, attachment and camera sections. header flags incl. the texture-combiner bit for Cataclysm/MoP models; 80/600 modern .anim files (0..3 sections, 0..5 bones each, every subset of translation / rotation / scaling tracks with 0..4 keys, arbitrary float bits): write->parse->write, conversion to the same and to the other container, and the model's reading and re-laying-out of the writer's bytes. skins whose bone-index table is shorter / longer than the vertex lookup or empty.",
@@ -314,8 +314,9 @@ EXTRA_RULE = {
  "C17": "structured key columns (consecutive, sorted with duplicates and gaps, a duplicate exactly compensating a gap, descending) and lookups of every value in the key range. source files whose string block does not start with the empty string; the lazy iterator through nth / step_by / skip / last / count, fresh and after it has advanced.",
  "C19": "handles forged in the high 32 bits of live archive and file handles; 24/120 histories on writable archives (SFileCreateArchive2 V1..V4: add with/without replace, remove, rename, flush, compact) with the C API's view of every name compared with a name->bytes map after every call and the closed archive read by the Rust API. buffer-size sweeps around the exact fit for SFileGetArchiveName / SFileGetFileInfo. file handles kept open across later steps of writable-archive histories (a new open never depends on older handles); names longer than the find-data buffer whose byte 259 falls inside a 2-, 3- or 4-byte character.",
  "C20": "a second generation (same names and lengths, other bytes) extracted over the first one's output; --preserve-paths with nested, unsafe and explicit names with and without --skip-errors. every format family (dbc, wdt, wdl, mpq, adt, wmo, m2, blp) on valid / empty / half / header-only / magic-zeroed / tail-cut / missing input; the global -q/--quiet flag before and after the sub-command never changes the exit status; a 150/333-member archive with one member damaged at a time (first, early, middle, last batch, last). hollow inputs (signature and version, everything else zero: load but hold nothing); the reporting flags (--warnings / --detailed / --verbose, alone and together) of every validate sub-command never turn a failing validation into exit 0.",
- "C04": "the HET/BET table wrapper (encrypt_data / decrypt_table_data) on tables of every length mod 4 (slots 1..40 x index bits 1..8).",
+ "C04": "the HET/BET table wrapper (encrypt_data / decrypt_table_data) on tables of every length mod 4 (slots 1..40 x index bits 1..8). both byte wrappers on slices that start at every address modulo 4 inside a larger buffer (result independent of the slice's position; neighbours untouched).",
  "C08": "patch entries (TPatchInfo + PTCH, flag set in the block table) inside chains: applied over the base, a failing patch is an error and never the base or the raw patch bytes. identity patches (result = base) applied to an altered, longer, shorter and empty base; after a patched read the history goes on (patch archive re-prioritised below the base, back, removed, re-added, chain cleared) and every answer follows the chain as it is now.",
+ "C12": "the destination reserved beforehand as an EMPTY file (besides absent and holding earlier content).",
 }
 for _k, _v in EXTRA_RULE.items():
     _r = PROPS[_k]["rule"]
